@@ -77,7 +77,13 @@ func (e *Engine) canon(st *State, x ast.Expr) keyInfo {
 					return *a.Alias
 				}
 			}
-			return keyInfo{Key: k, Objs: []types.Object{o}, OK: true}
+			ki := keyInfo{Key: k, Objs: []types.Object{o}, OK: true}
+			// a local variable holding a struct by value: its fields change only through stores to this variable
+			// (variables whose address is taken carry no facts at all)
+			if _, isStruct := o.Type().Underlying().(*types.Struct); isStruct && !o.IsField() && o.Pkg() != nil && o.Parent() != o.Pkg().Scope() {
+				ki.Value = true
+			}
+			return ki
 		case *types.Nil:
 			return keyInfo{Key: "nil", OK: true}
 		}
